@@ -313,3 +313,28 @@ def shards(n, k):
         out.append((lo, hi))
         lo = hi
     return out
+
+
+def make_with_symbolic_prefix(ex_, lengths, B, extra_prefixes=()):
+    """The real IpAnonymizer constructed *inside* the path with user prefixes whose network bits are symbolic:
+    each entry is the tuple (network, length) form that ipaddress.ip_network accepts, network = L symbolic top bits
+    followed by zeros.  Returns (anonymizer, [(top_bits_bv, L), ...])."""
+    F = fam()
+    plist, tops = [], []
+    for i, L in enumerate(lengths):
+        if L == 0:
+            top = None
+            net = 0
+        else:
+            top = z3.BitVec("pfx%d" % i, L)
+            net = SInt.unsigned(z3.Concat(top, z3.BitVecVal(0, 32 - L)) if L < 32 else top)
+        plist.append((net, L))
+        tops.append((top, L))
+    an = F.ip.IpAnonymizer(SALT, list(extra_prefixes) + plist, None, preserve_suffix=B)
+    return an, tops
+
+
+def in_sym_prefix(x, top, L, W=32):
+    if L == 0:
+        return z3.BoolVal(True)
+    return z3.Extract(W - 1, W - L, x) == top
